@@ -461,6 +461,12 @@ func (fi *fnInfo) intUB(v ssa.Value, ctx *ssa.BasicBlock, depth int) int {
 			if c, ok := constInt(x.Y); ok && a >= 0 && c >= 0 && c < 62 {
 				tighten(a >> uint(c))
 			}
+		case token.SHL:
+			if c, ok := constInt(x.Y); ok && a >= 0 && c >= 0 && c < 32 && a < 1<<30 {
+				if m := typeMax(x.Type()); m == 0 || a<<uint(c) <= m {
+					tighten(a << uint(c))
+				}
+			}
 		case token.QUO:
 			if c, ok := constInt(x.Y); ok && c > 0 && a >= 0 {
 				tighten(a / c)
